@@ -126,7 +126,7 @@ def main():
             "evidence_file": "evidence/%s.json" % pid,
             "replay_cmd_template": "./run.sh replay {path}",
             "engine": "vcheck-race" if pid == "C19" else "vcheck",
-            "level_claimed": {"category": "exploration", "text": c["text"] + " The scopes named here are those of the first version; seven rounds of seeded changes extended every check (further sub-checks, larger pools, more entry points) - the sub-checks with their rules, case counts and observed events as they are now are in the evidence file, the history in the 'Round n' notes of DESIGN.md section 3.", "design_ref": c["ref"]},
+            "level_claimed": {"category": "exploration", "text": c["text"] + " The scopes named here are those of the first version; eight rounds of seeded changes extended every check (further sub-checks, larger pools, more entry points) - the sub-checks with their rules, case counts and observed events as they are now are in the evidence file, the history in the 'Round n' notes of DESIGN.md section 3.", "design_ref": c["ref"]},
             "level_note": c["note"],
             "technique": c["technique"],
         })
